@@ -1,5 +1,5 @@
 """temporary entry to run harness/outcorr.py (E25); not a property"""
-ID = "E25"; THEOREM_MODULES = []; COMPONENTS = ["output"]
+ID = "E25"; THEOREM_MODULES = ["JF.Props.Output", "JF.Lemmas.OutputPairs", "JF.Lemmas.OutputGeom"]; COMPONENTS = ["output"]
 ASSUMPTIONS = []; TRUSTED = []
 def run(ctx):
     from harness import outcorr
